@@ -115,7 +115,7 @@ def shrink(pid, dp, cmds, fails, max_rounds=3):
 
 def run_builder_check(pid, gen_cases, oracle_fn, fields=None, truncate_at_leak=True, rule="",
                       corpus=(), extra_evidence=None, theorem_names="", compare_model=True,
-                      classify=None, oracle_only_cases=None):
+                      classify=None, oracle_only_cases=None, after_leak_signature=None):
     """gen_cases(run) -> list of (dp, cmds); oracle_fn(dp, cmds, steps, upto) -> list of (step index, msg, signature)
     """
     run = Run(pid)
@@ -130,6 +130,7 @@ def run_builder_check(pid, gen_cases, oracle_fn, fields=None, truncate_at_leak=T
     for i, (dp, cmds) in enumerate(cases):
         impl.append(ImplRun(dp, style=i % 3).run(cmds))
     opcount, exccount, lens = {}, {}, {}
+    after_leak_seen = [0]
     truncated = 0
     found_input = False
 
@@ -153,6 +154,23 @@ def run_builder_check(pid, gen_cases, oracle_fn, fields=None, truncate_at_leak=T
         nontrivial = len(kinds) >= 3 and any(s["raw"] for s in steps)
         run.count((dp, repr(cmds)), nontrivial)
         fails = oracle_fn(dp, cmds, steps, upto)
+        if upto is not None and after_leak_signature is not None:
+            # the history goes on after a rejected call that was not atomic (C05).  If that leak is one of the recorded C05
+            # sites and THIS property breaks from there on, that is the same recorded defect seen through this property.
+            later = [f for f in oracle_fn(dp, cmds, steps, None) if f[0] >= upto]
+            if later:
+                site = steps[upto].get("leak")
+                if cmds[upto][0] == "polyline" and steps[upto]["exc"] == "ValueErr":
+                    # a polyline is a sequence of moves: the vertex that is rejected leaks exactly like a single move does
+                    lk = leak_of(steps[upto - 1]["snap"] if upto else initial_snapshot(), steps[upto])
+                    if lk and set(lk[0]) <= {"pos", "params", "sparams", "feed", "power"}:
+                        site = ("move|ValueErr|F/S-words-committed-before-rejection" if set(lk[0]) <= {"feed", "power"}
+                                else "move|ValueErr|position/parameters-committed-before-axes-bounds-rejection")
+                c05_known = any(k.get("property") == "C05" and k.get("status") == "known" and k.get("signature") == site for k in load_known())
+                idx, msg, _ = later[0]
+                after_leak_seen[0] += 1
+                fails = list(fails) + [(idx, "after the rejected, non-atomic call %r (C05 site %s): %s" % (cmd_json(cmds[upto]), site, msg),
+                                        after_leak_signature if c05_known else None)]
         seen = set()
         for (idx, msg, sig) in fails:
             if sig in seen:
@@ -226,7 +244,8 @@ def run_builder_check(pid, gen_cases, oracle_fn, fields=None, truncate_at_leak=T
     proof_broken_violation(run, st, found_input)
     run.cov["rule"] = rule + " non-trivial = history with >= 3 distinct call kinds and >= 1 emitted line; distinct = distinct (dp, history)."
     ev = dict(oracle_only_histories=n_oracle_only, input_distribution=dict(op_kinds=opcount, exceptions=exccount, history_length_buckets=lens,
-                                      histories_truncated_at_a_C05_leak=truncated),
+                                      histories_truncated_at_a_C05_leak=truncated,
+                                      histories_where_the_property_breaks_after_a_recorded_C05_leak=after_leak_seen[0]),
               traces_validated_against_impl=validated)
     if extra_evidence:
         ev.update(extra_evidence)
